@@ -429,3 +429,61 @@ func VP_KF_C07_1() {
 		zzvp.Assert(vpSatCNF(rest, 2), "returned set is not minimal")
 	}
 }
+
+// VP_C16_explain: two independent MUS / unsat-subset extractions on two
+// goroutines under the happens-before monitor (which also watches the
+// goroutine UnsatSubset starts internally).
+func VP_C16_explain() {
+	problems := [][][]int{
+		{{1, 2}, {-1, 2}, {1, -2}, {-1, -2}, {1}},
+		{{1}, {-1, 2}, {-2}, {2, 3}},
+		{{1, 2, 3}, {-1}, {-2}, {-3}},
+		{{1, 2}, {-1, 2}, {1, -2}, {-1, -2}},                    // needs search: the solver goroutine is started
+		{{1, 2}, {-1, 2}, {1, -2}, {-1, -2, 3}, {-3, 1}, {-3, -1}}, // needs search and learning
+	}
+	use := func(k, method int) (int, bool) {
+		F := problems[k]
+		pb, err := ParseCNF(strings.NewReader(vpDimacs(3, F)))
+		if err != nil {
+			return -1, false
+		}
+		var mus *Problem
+		switch method {
+		case 0:
+			mus, err = pb.UnsatSubset()
+		case 1:
+			mus, err = pb.MUSDeletion()
+		default:
+			mus, err = pb.MUSInsertion()
+		}
+		if err != nil || mus == nil {
+			return -1, false
+		}
+		return len(mus.Clauses), !vpSatCNF(mus.Clauses, 3)
+	}
+	first := zzvp.Param("first", 0) // problems[first:] are used
+	k1 := first + zzvp.Choose("p1", len(problems)-first)
+	k2 := first + zzvp.Choose("p2", len(problems)-first)
+	m1 := zzvp.Choose("m1", zzvp.Param("methods", 3))
+	m2 := zzvp.Choose("m2", zzvp.Param("methods", 3))
+	w1n, w1ok := use(k1, m1)
+	w2n, w2ok := use(k2, m2)
+	zzvp.RaceDetect(true)
+	zzvp.Preemptions(zzvp.Param("preempt", 0))
+	zzvp.Schedule(1)
+	type res struct {
+		n  int
+		ok bool
+	}
+	c1 := make(chan res, 1)
+	c2 := make(chan res, 1)
+	go func() { n, ok := use(k1, m1); c1 <- res{n, ok} }()
+	go func() { n, ok := use(k2, m2); c2 <- res{n, ok} }()
+	r1 := <-c1
+	r2 := <-c2
+	zzvp.Schedule(0)
+	zzvp.RaceDetect(false)
+	zzvp.Assert(r1.ok && r2.ok && w1ok && w2ok, "an extraction failed or returned a satisfiable set")
+	zzvp.Assert(r1.n == w1n && r2.n == w2n, "an extraction run concurrently with another returned something else than when run alone")
+	zzvp.Reach("two-uses")
+}
